@@ -766,7 +766,8 @@ Section WithV.
     destruct (from_sequence_keys es e0 rest dim a sd r Ees Hlen Hv0 H) as [hfull [ents [-> [F [Hw [Hsd [Hnd Hkeys]]]]]]].
     apply kcanon_canonical_mod_none; [exact Hw | exact Hnd|].
     intros k c vs Hin. rewrite <- Hsd in Hax, Hn3.
-    apply (merge_k_canon_axis hfull _ dim ax _ _ (map (fun e => (hdr_of e, lookup_e e k)) rest) _);
+    apply (merge_k_canon_axis hfull (shape (hdr_of e0)) dim ax (hdr_of e0) (lookup_e e0 k)
+             (map (fun e => (hdr_of e, lookup_e e k)) rest) (Some (c, vs)));
       [rewrite map_length; exact F | exact Hw | exact Hax | exact Hn3 | | apply Hkeys; exact Hin].
     assert (Hone : forall e, In e es -> inp hfull (shape (hdr_of e0)) (hdr_of e) /\
                      good_k (hdr_of e) (lookup_e e k) /\ nondeg_k (hdr_of e) (lookup_e e k)).
@@ -789,7 +790,8 @@ Section WithV.
     destruct (from_sequence_keys es e0 rest dim a sd r Ees Hlen Hv0 H) as [hfull [ents [-> [F [Hw [Hsd [Hnd Hkeys]]]]]]].
     apply kcanon_canonical_mod_none; [exact Hw | exact Hnd|].
     intros k c vs Hin. rewrite <- Hsd in Hns.
-    apply (merge_k_canon_nonslice hfull _ dim _ _ (map (fun e => (hdr_of e, lookup_e e k)) rest) _);
+    apply (merge_k_canon_nonslice hfull (shape (hdr_of e0)) dim (hdr_of e0) (lookup_e e0 k)
+             (map (fun e => (hdr_of e, lookup_e e k)) rest) (Some (c, vs)));
       [rewrite map_length; exact F | exact Hw | exact Hd3 | exact Hns | | apply Hkeys; exact Hin].
     assert (Hone : forall e, In e es -> inp hfull (shape (hdr_of e0)) (hdr_of e) /\ kcanon (hdr_of e) (lookup_e e k)).
     { intros e He. destruct (Hall e He) as [Hc [Hsh Hs]]. split; [split; [exact Hsh | congruence]|].
@@ -801,7 +803,8 @@ Section WithV.
   (** * Corollaries (true of every extension whose keys sit at their canonical class) *)
   Lemma origin_in_dims (h : hdr) : hdr_wf h -> in_dims (dims h) (0, 0, 0).
   Proof.
-    intros Hw. pose proof (dims_pos_of_wf h Hw) as Hp. destruct (dims h) as [[nS nT] nV]. cbn [dims_pos in_dims] in *. lia.
+    intros Hw. pose proof (dims_pos_of_wf h Hw) as Hp. destruct (dims h) as [[nS nT] nV].
+    unfold ProofsSimplifyLayout.dims_pos in Hp. cbn [in_dims]. lia.
   Qed.
 
   (** a key with the same non-None value everywhere is a global constant, readable without an index *)
@@ -877,7 +880,7 @@ Section WithV.
         + exists VSamples. rewrite Hcls. split; [reflexivity|]. split; [reflexivity|].
           apply representable_proj. intros [[s t] v] [[s' t'] v'] Hp Hq E. cbn [proj] in E. injection E as ->.
           rewrite !Hf. cbn [in_dims] in Hp, Hq. assert (t = 0 /\ t' = 0) as [-> ->] by lia. apply Hvol; cbn [in_dims]; lia.
-        + exists TSamples. rewrite Hcls. cbn [base_of]. split; [apply negb_true_iff, Nat.eqb_neq; exact HnT|].
+        + exists TSamples. rewrite Hcls. cbn [base_of]. split; [first [reflexivity | apply negb_true_iff, Nat.eqb_neq; exact HnT]|].
           split; [reflexivity|].
           apply representable_proj. intros [[s t] v] [[s' t'] v'] Hp Hq E. cbn [proj] in E. injection E as -> ->.
           rewrite !Hf. apply Hvol; assumption. }
@@ -925,7 +928,7 @@ Theorem none_dropped_refuted :
 Proof.
   exists [ex_none_e; ex_none_e], 3. eexists. exists [107]%N. split.
   { intros e [<-|[<-|[]]]; (split; [apply validb_valid; vm_compute; reflexivity|]);
-      apply nondegenerateb_nondegenerate; [apply validb_valid|]; vm_compute; reflexivity. }
+      (apply nondegenerateb_nondegenerate; [apply validb_valid|]; vm_compute; reflexivity). }
   split; [vm_compute; reflexivity|]. split; [|discriminate].
   intros [[s t] v]. reflexivity.
 Qed.
